@@ -871,6 +871,82 @@ def corpus_cases():
 
 # --------------------------------------------------------------------------- entry points of the check
 
+# --------------------------------------------------------------------------- very long grid axes (index width)
+
+LONG_AXIS_KEY = 'tsc:long-axis'
+LONG_AXIS_WORKER = r"""
+import sys, json, warnings
+import numpy as np
+warnings.simplefilter('ignore')
+from abacusnbody.analysis import tsc
+from abacusnbody.analysis.cic import cic_serial
+g, axis, kind = int(sys.argv[1]), int(sys.argv[2]), sys.argv[3]
+shape = [2, 2, 2]; shape[axis] = g
+box = float(g)
+pts = [0.0, 0.25, g / 2 + 0.25, g - 1.0, g - 0.25, 32767.5 if g > 32768 else 1.5, float(min(g - 2, 40000))]
+pos = np.zeros((len(pts), 3)); pos[:, axis] = pts
+others = [a for a in range(3) if a != axis]
+d = np.zeros(shape)
+if kind == 'tsc':
+    tsc._tsc_scatter(pos, d, box)
+else:
+    cic_serial(pos, d, box)
+prof = d.sum(axis=tuple(others))
+nz = np.nonzero(prof)[0]
+print(json.dumps({'sum': float(d.sum()), 'rows': [int(v) for v in nz], 'vals': [float(prof[v]) for v in nz], 'pts': pts}))
+"""
+
+
+def long_axis_expected(g, pts, kind):
+    """marginal deposit along the long axis from the documented kernel, exact (dyadic inputs, unit weights)"""
+    from fractions import Fraction as F
+    exp = {}
+    for x in pts:
+        p = F(x)          # grid coordinate = position (box == g, offset 0)
+        if kind == 'tsc':
+            ix = int(np.round(float(p)))          # round half to even, as numba's round
+            dd = F(ix) - p
+            ws = {ix - 1: F(1, 2) * (F(1, 2) + dd) ** 2, ix: F(3, 4) - dd ** 2, ix + 1: F(1, 2) * (F(1, 2) - dd) ** 2}
+        else:
+            ix = int(np.round(float(p)))
+            dd = F(ix) - p
+            ws = {ix: 1 - abs(dd), (ix - 1 if dd > 0 else ix + 1): abs(dd)}
+        for r, wv in ws.items():
+            exp[r % g] = exp.get(r % g, F(0)) + wv
+    return {r: float(v) for r, v in exp.items() if v != 0}
+
+
+def check_long_axis(ctx):
+    """`_tsc_scatter` keeps the grid shape and the cell indices in a fixed-width integer: axes of 32768 cells and more are
+    legal grid shapes (anisotropic grids) and must deposit the same kernel.  Run in a child process with a time limit,
+    because a wrapped-around axis length makes `_rightwrap` spin forever."""
+    import subprocess
+    import vcommon
+    for g in ctx.pick((32767, 32768, 40000), (32767, 32768, 32769, 40000, 65535, 65536, 65537, 100000)):
+        for axis in ((0, 2) if ctx.quick else (0, 1, 2)):
+            case = dict(stream='long-axis', kind='tsc', g=g, axis=axis)
+            ctx.case(case)
+            ctx.count('long-axis')
+            try:
+                r = subprocess.run([vcommon.PY, '-B', '-c', LONG_AXIS_WORKER, str(g), str(axis), 'tsc'], env=vcommon.impl_env({'NUMBA_BOUNDSCHECK': '1'}),
+                                   capture_output=True, text=True, timeout=120)
+            except subprocess.TimeoutExpired:
+                ctx.fail('_tsc_scatter does not return within 120 s on a grid with a long axis', case, 'no result (time limit)',
+                         'the TSC deposit', key=LONG_AXIS_KEY)
+                return          # one hang is the failing input; do not wait for the others
+            if r.returncode != 0:
+                ctx.fail('_tsc_scatter raised on a grid with a long axis', case, r.stderr[-300:], 'the TSC deposit', key=LONG_AXIS_KEY)
+                continue
+            out = json.loads(r.stdout.strip().splitlines()[-1])
+            exp = long_axis_expected(g, out['pts'], 'tsc')
+            got = dict(zip(out['rows'], out['vals']))
+            if out['sum'] != float(len(out['pts'])) or got != exp:
+                bad = sorted(set(got) ^ set(exp)) or [k for k in got if got[k] != exp.get(k)]
+                ctx.fail('_tsc_scatter deposit along a long axis is not the documented kernel', dict(case, rows=bad[:6]),
+                         {'sum': out['sum'], 'got': {k: got.get(k) for k in bad[:6]}}, {'sum': len(out['pts']), 'expected': {k: exp.get(k) for k in bad[:6]}},
+                         key=LONG_AXIS_KEY)
+
+
 def run_cases(ctx, impl, cases):
     plan = Plan()
     laters = [check_case(ctx, impl, c, plan) for c in cases]
@@ -910,6 +986,7 @@ def run(ctx):
         run_cases(ctx, impl, cases)
     finally:
         numba.set_num_threads(numba.config.NUMBA_NUM_THREADS)
+    check_long_axis(ctx)
     ctx.extra['streams'] = {'exact': 'dyadic lattice, bit-for-bit', 'tol': 'theorem-derived per-cell bound (tol_of)',
                             'fault': 'py_func IndexError/ZeroDivisionError vs model oob/rejected'}
 
@@ -944,6 +1021,9 @@ def intensify(ctx):
 def replay(ctx, doc):
     impl = Impl()
     case = doc['failure']['case'] if 'failure' in doc else doc.get('case', doc)
+    if case.get('stream') == 'long-axis':
+        check_long_axis(ctx)
+        return
     plan = Plan()
     later = check_case(ctx, impl, case, plan)
     answers = ctx.driver.query(plan.lines)
